@@ -430,6 +430,10 @@ pub fn gen_schema(rng: &mut Rng, opts: &SchemaOpts) -> SchemaModel {
         }
         m.n_files = used.len();
     }
+    // the other root types may be declared by an `extend schema` piece, in any file
+    if m.schema_block && !plain && rng.chance(1, 2) {
+        m.schema_ext_file = Some(rng.below(m.n_files));
+    }
     m
 }
 
@@ -477,9 +481,22 @@ fn render_field(f: &FieldDef, m: &SchemaModel, out: &mut String) {
 /// Renders schema file `file` (0-based) of the model.
 pub fn render_schema_file(m: &SchemaModel, file: usize) -> String {
     let mut out = String::new();
+    let ext = m.schema_ext_file.filter(|_| m.schema_block && (m.mutation.is_some() || m.subscription.is_some()));
     if m.schema_block && file == 0 {
         out.push_str("schema {\n");
         out.push_str(&format!("  query: {}\n", m.query));
+        if ext.is_none() {
+            if let Some(x) = &m.mutation {
+                out.push_str(&format!("  mutation: {x}\n"));
+            }
+            if let Some(x) = &m.subscription {
+                out.push_str(&format!("  subscription: {x}\n"));
+            }
+        }
+        out.push_str("}\n\n");
+    }
+    if ext == Some(file) {
+        out.push_str("extend schema {\n");
         if let Some(x) = &m.mutation {
             out.push_str(&format!("  mutation: {x}\n"));
         }
@@ -605,6 +622,9 @@ pub struct OpsOpts {
     pub cover_fragments: bool,
     /// fragments of different files may share a name (never in a project that must pass `check`)
     pub name_collisions: bool,
+    /// let one path string carry a wildcard import and named imports (nitrogql rejects the
+    /// combination; whether it does must not depend on the order of the lines)
+    pub mixed_wildcard: bool,
 }
 
 impl Default for OpsOpts {
@@ -620,6 +640,7 @@ impl Default for OpsOpts {
             closed_imports: false,
             cover_fragments: false,
             name_collisions: false,
+            mixed_wildcard: false,
             dirs: vec!["src".into(), "src/a".into(), "src/a/b".into(), "src/c".into()],
         }
     }
@@ -943,7 +964,7 @@ pub fn gen_ops(rng: &mut Rng, m: &SchemaModel, o: &OpsOpts) -> Vec<OpFileModel> 
             // nitrogql merges lines with the same path string and rejects
             // "wildcard twice" / "wildcard + names" for one path string by design
             if let Some(prev) = imports.iter().find(|i| i.spelling == spelling) {
-                if prev.names.is_none() || names.is_none() {
+                if (prev.names.is_none() || names.is_none()) && !(o.mixed_wildcard && rng.chance(1, 2)) {
                     continue;
                 }
             }
